@@ -47,6 +47,34 @@ def make_config(sock_path, policy_xml=None, limits=None, servicedirs=(), bus_typ
     return "\n".join(out) + "\n"
 
 
+_TCP_OK = None
+
+
+def tcp_loopback_available():
+    """True when a TCP socket can listen on and connect to 127.0.0.1 here (checked once).  Parts that drive the bus over loopback
+    TCP are skipped - and say so in the evidence - where it cannot."""
+    global _TCP_OK
+    if _TCP_OK is None and os.environ.get("VERIF_NO_TCP"):
+        _TCP_OK = False          # for testing the degraded mode
+    if _TCP_OK is None:
+        import socket
+        try:
+            l = socket.socket(socket.AF_INET, socket.SOCK_STREAM)
+            l.bind(("127.0.0.1", 0))
+            l.listen(1)
+            c = socket.socket(socket.AF_INET, socket.SOCK_STREAM)
+            c.settimeout(3)
+            c.connect(l.getsockname())
+            a, _ = l.accept()
+            a.close()
+            c.close()
+            l.close()
+            _TCP_OK = True
+        except OSError:
+            _TCP_OK = False
+    return _TCP_OK
+
+
 class Daemon(object):
     def __init__(self, build, rundir, config_text, name="bus", leaks=True, env=None, wrapper=(), extra_args=(), print_address=False):
         self.build = build
